@@ -128,9 +128,9 @@ fn depth_of(prop: Prop, tier: Tier) -> usize {
         .and_then(|s| s.parse().ok())
         .unwrap_or(match (prop, tier) {
             (Prop::C01, Tier::Quick) => 6,
-            (Prop::C01, Tier::Thorough) => 8,
-            (Prop::C02, Tier::Quick) => 7,
-            (Prop::C02, Tier::Thorough) => 9,
+            (Prop::C01, Tier::Thorough) => 7,
+            (Prop::C02, Tier::Quick) => 6,
+            (Prop::C02, Tier::Thorough) => 8,
         })
 }
 
